@@ -32,6 +32,9 @@ def parse (t : List String) : Option Op :=
 
 def stepLine (s : FSt) (t : List String) : FSt × String :=
   match t with
+  | ["reloc"] =>
+      -- C14: relocating the memory block is invisible: the model state has no addresses
+      (s, "ok d=[]")
   | ["new", fl, cap] =>
       if nat! cap = 0 ∧ fl ≠ "heap" then (s, "err:alloc") else (init (nat! cap), "ok d=[]")
   | _ =>
